@@ -9,7 +9,7 @@
     [outs_match]: the outputs agree pointwise (All up to permutation) and no model output is a
     failure ([RFail]: Panic or Hang). *)
 From Coq Require Import List NArith Permutation.
-From Algo.C02 Require Import Model Spec ProofsChain.
+From Algo.C02 Require Import Model Spec ProofsChain ProofsLinear.
 Import ListNotations.
 
 (** Separate chaining: full refinement, for every key/value type with a decidable equality, every
@@ -25,6 +25,20 @@ Theorem C02_refines_chain :
     forall ops : list (op K V),
       outs_match K V (run K V eqb eqv hash minlf maxlf orc Chain cap ops) (run_spec K V eqb eqv ops).
 Proof. intros. apply chain_refines; auto. Qed.
+
+(** Linear probing: full refinement — including the cluster re-insertion loop of Delete — for every
+    key/value type with a decidable equality, every hash function, all options with
+    maxLF <= 1/2, maxLF*31 >= 1 and 2*minLF <= maxLF (the defaults 1/8 and 1/2 and everything tighter),
+    the default or any power-of-two capacity >= 32, every iteration oracle and every history. *)
+Theorem C02_refines_linear :
+  forall (K V : Type) (eqb : K -> K -> bool) (eqv : V -> V -> bool) (hash : K -> N) (minlf maxlf : lf),
+    (forall a b, eqb a b = true <-> a = b) ->
+    valid_open minlf maxlf ->
+    forall (cap : nat), valid_cap_linear cap ->
+    forall (orc : nat -> nat -> list nat -> list nat), (forall i j l, Permutation (orc i j l) l) ->
+    forall ops : list (op K V),
+      outs_match K V (run K V eqb eqv hash minlf maxlf orc Linear cap ops) (run_spec K V eqb eqv ops).
+Proof. intros. apply linear_refines; auto. Qed.
 
 (** Non-vacuity: one history on each of the four tables under the constant hash function
     (every key collides): put 40 keys (all tables grow at least once), delete and revive some. *)
@@ -56,4 +70,12 @@ Proof.
   split; [left; reflexivity|right; exists 6; split; auto with arith].
 Qed.
 
+Example C02_open_defaults_valid :
+  valid_open {| lf_num := 1; lf_den := 8 |} {| lf_num := 1; lf_den := 2 |} /\ valid_cap_linear 0 /\ valid_cap_linear 128.
+Proof.
+  split; [unfold valid_open; simpl; repeat split; auto with arith|].
+  split; [left; reflexivity|right; exists 7; split; auto with arith].
+Qed.
+
 Print Assumptions C02_refines_chain.
+Print Assumptions C02_refines_linear.
